@@ -304,3 +304,125 @@ def read_hist(rng: random.Random, fmt=None, formats=("fb", "fb", "npz", "npz",
         hist["sessions"] = [{"kind": "root", "reopen": False, "writes": [
             {"split": split, "id": next(ids)} for _ in range(n_examples)]}]
     return hist
+
+
+class ReaderRun:
+    """Result of one consumer run."""
+
+    def __init__(self):
+        self.items = []       # canon'd examples in arrival order
+        self.exc = None       # exception delivered to the consumer
+        self.deadlock = None  # simulator verdict (controlled components)
+        self.sched = None
+        self.loop = None
+        self.leftover_tasks = 0
+        self.opens_at_yield = []  # shard-file opens observed at each yield
+
+
+def run_reader(env: ReadEnv, ds, iface: str, split: str, opts: dict, k=None,
+               seed: int = 0, policy: str = "random", policy_param: int = 0,
+               counter=None, choices=None, max_steps: int = 200000,
+               abandon_without_close: bool = False,
+               line_prob: float = 0.0) -> ReaderRun:
+    """Consume (the first k elements of) one interface under the simulator.
+    Never raises for exceptions coming out of sedpack: they are recorded."""
+    attrs = env.st["attrs"]
+    rr = ReaderRun()
+    base_opens = len(env.opens)
+
+    def pump(iterable):
+        it = iter(iterable)
+        try:
+            while k is None or len(rr.items) < k:
+                try:
+                    e = next(it)
+                except StopIteration:
+                    break
+                rr.items.append(dsgen.canon(e, attrs))
+                rr.opens_at_yield.append(len(env.opens) - base_opens)
+        finally:
+            close = getattr(it, "close", None)
+            if close is not None and not abandon_without_close:
+                close()
+
+    try:
+        if iface == "async":
+            res, loop = consume_async(ds, [(split, opts)], attrs, seed, k=k,
+                                      counters=[counter] if counter else None)
+            rr.items = res[0]
+            rr.loop = loop
+        elif iface == "conc":
+            sc = S.Sched(random.Random(seed), policy=policy,
+                         policy_param=policy_param, choices=choices,
+                         max_steps=max_steps,
+                         trace_files=(bootstrap.LAZY_POOL_PY,)
+                         if line_prob else (), line_prob=line_prob)
+            rr.sched = sc
+            with sim_bindings(), sc:
+                try:
+                    pump(make_iter(ds, "conc", split, opts, counter))
+                except (S.SimDeadlock, S.SimStepLimit):
+                    raise
+                except Exception as e:  # pylint: disable=broad-except
+                    rr.exc = e
+                try:
+                    sc.drain()
+                except S.SimDeadlock as e:
+                    rr.leftover_tasks = sum(
+                        1 for t in sc.tasks
+                        if t is not sc.main and t.state != S.DONE)
+                    rr.deadlock = "workers do not terminate: " + str(e)
+        else:
+            pump(make_iter(ds, iface, split, opts, counter))
+    except S.SimDeadlock as e:
+        rr.deadlock = "deadlock: " + str(e)
+    except S.SimStepLimit as e:
+        rr.deadlock = "no termination within the step budget: " + str(e)
+    except simloop.SimLoopDeadlock as e:
+        rr.deadlock = "async deadlock: " + str(e)
+    except Exception as e:  # pylint: disable=broad-except
+        rr.exc = e
+    return rr
+
+
+def with_watchdog(fn, seconds: float):
+    """Run fn() in-process under a shorter SIGALRM deadline (for tf.data,
+    which cannot be forked safely).  Returns ("ok", value) or ("hang", None).
+    The runner's own per-case timer is restored afterwards."""
+    from simlib.runner import CaseTimeout
+    t0 = time.time()
+    old = signal.setitimer(signal.ITIMER_REAL, seconds)
+    try:
+        return ("ok", fn())
+    except CaseTimeout:
+        return ("hang", None)
+    finally:
+        left = max(0.5, old[0] - (time.time() - t0)) if old[0] else 0
+        signal.setitimer(signal.ITIMER_REAL, left)
+
+
+def confirm_hang_in_subprocess(prop_id: str, case: dict,
+                               timeout: float = 150.0) -> bool:
+    """A forked child that used TensorFlow did not answer.  Fork-after-TF is
+    not guaranteed to be safe, so before calling it a hang the case is re-run
+    in a *fresh interpreter* without any fork; only a second time-out counts."""
+    import json
+    import subprocess
+    import sys
+    import tempfile
+    with tempfile.NamedTemporaryFile("w", suffix=".json", dir="/dev/shm",
+                                     delete=False) as f:
+        json.dump({k: v for k, v in case.items() if k != "choices"}, f)
+        path = f.name
+    env = dict(os.environ)
+    env["VERIF_NO_FORK"] = "1"
+    try:
+        subprocess.run([sys.executable,
+                        os.path.join(bootstrap.VERIF, "simlib", "main.py"),
+                        "runcase", prop_id, path], env=env, timeout=timeout,
+                       capture_output=True, check=False)
+        return False
+    except subprocess.TimeoutExpired:
+        return True
+    finally:
+        os.unlink(path)
